@@ -376,23 +376,29 @@ def _run(ck, m):
     # start_election is entered in role StartingUp.  Each way out either claims the role (election_win), or leaves on the false edge of
     # an is_eligible() test (another node claimed or is running), or on the error arm of the send that announces the candidacy.
     # Any other return leaves the node StartingUp with nobody left to decide.
-    all_wins = {x for x in sb.reachable() if sb.term(x)['k'] == 'call' and callee(sb.term(x)) == wb.id}
-    blocked = set(all_wins)
-    for x in sb.reachable():
-        tx = sb.term(x)
-        if tx['k'] != 'call':
-            continue
-        if callee(tx).endswith('bo::Databases::is_eligible'):
-            for (s2, tt, ft) in bool_switches(sb, x):
-                blocked.add(ft)
-        # the announcement: a Result-returning send whose Err arm gives up
-        cb_ = P.bodies.get(callee(tx))
-        if cb_ is not None and cb_.locals[0].startswith('std::result::Result<') and repl.sends_repl(m, cb_.id):
-            for (s2, tm_, els, adt) in core.enum_switches(sb, x):
-                if adt == 'std::result::Result':
-                    blocked.add(tm_.get('1', els))
-    rets = set(sb.return_blocks())
-    esc = sorted(rets & set(sb.reach_from([0], stop=lambda y: y in blocked, include_start=True)) - blocked)
+    helpers_j = {h.id: h for h in P.private_helpers(sb)}
+
+    def escapes(body, depth=0):
+        """returns of `body` reachable without passing a claim, the false edge of an eligibility test, the error arm of the
+        announcement, or a private helper (an extracted tail of the election) all of whose own returns are decided"""
+        blocked = {x for x in body.reachable() if body.term(x)['k'] == 'call' and callee(body.term(x)) == wb.id}
+        for x in body.reachable():
+            tx = body.term(x)
+            if tx['k'] != 'call':
+                continue
+            if callee(tx).endswith('bo::Databases::is_eligible'):
+                for (s2, tt, ft) in bool_switches(body, x):
+                    blocked.add(ft)
+            cb_ = P.bodies.get(callee(tx))
+            if cb_ is not None and cb_.locals[0].startswith('std::result::Result<') and repl.sends_repl(m, cb_.id):
+                for (s2, tm_, els, adt) in core.enum_switches(body, x):
+                    if adt == 'std::result::Result':
+                        blocked.add(tm_.get('1', els))
+            if cb_ is not None and cb_.id in helpers_j and depth < 3 and not escapes(cb_, depth + 1):
+                blocked.add(x)
+        rets = set(body.return_blocks())
+        return sorted(rets & set(body.reach_from([0], stop=lambda y: y in blocked, include_start=True)) - blocked)
+    esc = escapes(sb)
     ck.ob('C07.j', short(sb.id), 'every-exit-decides', not esc,
           'every return of the election follows a claim, a failed eligibility test or a failed announcement' if not esc else
           'the election can return at %s without claiming the role and without having seen that it is no longer eligible: the node stays '
